@@ -127,7 +127,10 @@ def idleVerdict (p : Prog) (s : State) (pausedAt : List (Nat × Nat)) : Option S
   let bad := effs.findSome? fun e =>
     let n := s.get e
     if n.runs == 0 then some "fail never-ran"
-    else if n.seen.any (fun (x, v, _) => specVal p s x != v) then some "fail stale-effect"
+    else if n.seen.any (fun (x, v, _) => specVal p s x != v) then
+      -- an effect whose own body writes a signal is a feedback loop when the write reaches something it read
+      -- (class of F-C02-2); a read-only effect that is stale is the plain class
+      if (bodyOf p e).noWrite then some "fail stale-effect" else some "fail self-feedback-stale"
     else none
   some (bad.getD "ok")
 
